@@ -26,7 +26,7 @@ LITS = {
                  "2021-06-15T12:00", "2021-06-15T12:00:00-05:30", "2020-02-29T00:00:00.5Z"],
     "duration": ["P1D", "PT1S", "P1Y2M3DT4H5M6S", "-P3D", "+PT0.5S", "P365DT12H1M1.1S",
                  "PT12H", "P2M", "P1Y"],
-    "geo": ["POINT(1 2)", "SRID=4326;POINT(5.5 50.1)",
+    "geo": ["POINT(1 2)", "SRID=4326;POINT(5.5 50.1)", "a''b", "''", "O''Neil POINT(0 0)",
             "POLYGON((0 0, 0 1, 1 1, 1 0, 0 0))"],
 }
 BUILTINS = {
